@@ -167,3 +167,33 @@ Theorem C16_long_line_scanner : forall pre l post,
   scanner_lines (pre ++ l :: post) = pre /\ scanner_truncated (pre ++ l :: post) = true.
 Proof. exact scanner_lines_truncates. Qed.
 Print Assumptions C16_long_line_scanner.
+
+(* ---- splitting across files of several directories (ParserConfig.ConfigDir) ---- *)
+(* a rule is compiled with the directory of the file whose line it is, in every parser state:
+   also after an Include of a file of another directory has returned *)
+Theorem C16_rule_dir_is_file_dir : forall f files dir g l d, evaluate_line l = LRule d ->
+  ps_ev f files dir g l = Some (mk_g (g_inc g) (d :: g_rules g) (dir :: g_dirs g)).
+Proof. exact ps_ev_rule_dir. Qed.
+Print Assumptions C16_rule_dir_is_file_dir.
+
+(* its relative data file is the one the flat configuration names by the full path *)
+Theorem C16_data_file_flat : forall files dir o,
+  resolve_data files dir o = resolve_data files [] (mk_op (o_fn o) (o_name o) (o_neg o) (path_join dir (o_arg o))).
+Proof. exact resolve_data_flat. Qed.
+Print Assumptions C16_data_file_flat.
+
+(* ---- SecRuleUpdateTargetById: id list, id range, one directive per id ---- *)
+Theorem C16_update_single_is_range : forall z ts rules, NoDup (map rule_id rules) ->
+  upd_first z ts rules = upd_range z z ts rules.
+Proof. exact upd_first_eq_range. Qed.
+Print Assumptions C16_update_single_is_range.
+
+Theorem C16_update_range_split : forall a m b ts rules, (a <= m)%Z -> (m < b)%Z ->
+  upd_range (m + 1) b ts (upd_range a m ts rules) = upd_range a b ts rules.
+Proof. exact upd_range_split. Qed.
+Print Assumptions C16_update_range_split.
+
+Theorem C16_update_range_spec : forall a b ts rules d, In d (upd_range a b ts rules) ->
+  exists d0, In d0 rules /\ d = (if id_in a b d0 then add_targets ts d0 else d0).
+Proof. exact upd_range_spec. Qed.
+Print Assumptions C16_update_range_spec.
